@@ -303,7 +303,7 @@ def enumerate_scripts(tier, seed):
 def plan(tier, seed):
     n = len(enumerate_scripts(tier, seed))
     return {"shards": 16, "timeout": 1500 if tier == "quick" else 7200, "exhaustive": tier == "thorough",
-            "floors": {"evaluations": n, "validator_invocations_observed": 100, "rejects_judged": 40, "residue_listings": n, "distinct": 100}}
+            "floors": {"evaluations": n, "validator_invocations_observed": 100, "rejects_judged": 40, "residue_listings": n, "distinct": 100, "file_route_scripts": 9}}
 
 
 # ----------------------------------------------------------------------------- one script
@@ -763,7 +763,113 @@ def ctx_sample_wanted(ctx, cls):
     return False
 
 
+FILE_ROUTE_CHILD = r"""
+import json, os, sys
+spec = json.load(open(sys.argv[1]))
+os.chdir(spec["cwd"])
+from pyxform.errors import PyXFormError
+from pyxform.validators.odk_validate import ODKValidateError
+from pyxform.xls2xform import convert
+sv = convert(xlsform=spec["md"], file_type=".md", validate=False, form_name="data")._survey
+w = []
+try:
+    sv.print_xform_to_file(spec["path"], validate=True, pretty_print=False, warnings=w)
+    rec = {"ok": True, "warnings": w}
+except BaseException as e:
+    rec = {"ok": False, "exc_type": type(e).__name__, "exc_msg": str(e), "is_odk": isinstance(e, ODKValidateError)}
+json.dump(rec, open(spec["result"], "w"))
+"""
+
+
+def file_route_scripts(ctx):
+    """The builder route that writes the file itself - Survey.print_xform_to_file(path, validate=True) - with the path given relative to the working
+    directory, in a sub-folder, or absolute: the validator is shown the file that was written (it exists while the validator runs and holds the
+    document), its verdict is honoured, an accepted form is at the path afterwards, and nothing is left in the temp directory."""
+    md = "| survey |\n| | type | name | label |\n| | text | q1 | Q1 |\n| | integer | q2 | Q2 |\n"
+    ref = drive.call_convert(md, file_type=".md", form_name="data")
+    if not ref.ok:
+        return
+    k = 0
+    for outcome in ("accept", "accept_warn", "reject"):
+        for kind in ("relative", "relative-subfolder", "absolute"):
+            k += 1
+            if not ctx.mine(k):
+                continue
+            d = tempfile.mkdtemp(prefix="c18file_")
+            try:
+                dirs = {n: os.path.join(d, n) for n in ("bin", "tmp", "cwd")}
+                for v_ in dirs.values():
+                    os.makedirs(v_)
+                os.makedirs(os.path.join(dirs["cwd"], "out"))
+                jsc = {"rc": 1 if outcome == "reject" else 0, "log": os.path.join(d, "java_calls.jsonl"), "copy_to": os.path.join(d, "java_saw.xml"),
+                       "stderr_hex": (b"Error: bad thing at /data/q1\n" if outcome == "reject" else (b"a warning about /data/q2\n" if outcome == "accept_warn" else b"")).hex()}
+                jscp = os.path.join(d, "java_scenario.json")
+                json.dump(jsc, open(jscp, "w"))
+                jp = os.path.join(dirs["bin"], "java")
+                with open(jp, "w") as fh:
+                    fh.write(SCRIPT)
+                os.chmod(jp, 0o755)
+                env = {"HOME": d, "TMPDIR": dirs["tmp"], "PYTHONPATH": os.pathsep.join([REPO, VERIF]), "PYTHONDONTWRITEBYTECODE": "1", "PYTHONHASHSEED": "0",
+                       "VERIF_JAVA_SCENARIO": jscp, "LANG": "C.UTF-8", "PATH": dirs["bin"] + ":/usr/bin:/bin"}
+                path = {"relative": "form_out.xml", "relative-subfolder": os.path.join("out", "form_out.xml"), "absolute": os.path.join(dirs["cwd"], "out", "abs_out.xml")}[kind]
+                full = path if os.path.isabs(path) else os.path.join(dirs["cwd"], path)
+                # a file of the same relative name in the temp directory: the validator must not be shown that one
+                with open(os.path.join(dirs["tmp"], "form_out.xml"), "w") as fh:
+                    fh.write("<decoy/>")
+                os.makedirs(os.path.join(dirs["tmp"], "out"))
+                with open(os.path.join(dirs["tmp"], "out", "form_out.xml"), "w") as fh:
+                    fh.write("<decoy/>")
+                tmp_before = listing(dirs["tmp"])
+                spec = {"cwd": dirs["cwd"], "md": md, "path": path, "result": os.path.join(d, "result.json")}
+                specp = os.path.join(d, "spec.json")
+                json.dump(spec, open(specp, "w"))
+                try:
+                    pr = subprocess.run([PY, "-c", FILE_ROUTE_CHILD, specp], cwd=d, env=env, capture_output=True, timeout=120)
+                except subprocess.TimeoutExpired:
+                    ctx.ctr("script_timeout")
+                    continue
+                ctx.case(sig=f"file-route|{outcome}|{kind}")
+                ctx.ctr("file_route_scripts")
+                wit = {"klass": "file-route", "outcome": outcome, "path_kind": kind}
+                if not os.path.exists(spec["result"]):
+                    ctx.viol("file-route:child-died", pr.stderr.decode("utf-8", "replace")[-300:], wit)
+                    continue
+                rec = json.load(open(spec["result"]))
+                calls = [json.loads(l) for l in open(jsc["log"])] if os.path.exists(jsc["log"]) else []
+                if len(calls) != 1:
+                    ctx.viol(f"file-route:validator-calls:{outcome}", f"[{kind}] the validator ran {len(calls)}x", wit)
+                for c in calls:
+                    ctx.ctr("validator_invocations_observed")
+                    if not c["exists"]:
+                        ctx.viol(f"file-route:validator-input:missing:{kind}", f"[{outcome}] the validator was pointed at {c['argv'][-1]!r}, which did not exist where it ran (written to {full})", wit)
+                    elif c["sha"] != hashlib.sha256(ref.xform.encode("utf-8")).hexdigest():
+                        ctx.viol(f"file-route:validator-input:another-file:{kind}", f"[{outcome}] the validator was shown a file that is not the document written ({c['size']} bytes)", wit)
+                if outcome == "reject":
+                    ctx.ctr("rejects_judged")
+                    if rec["ok"] or not rec.get("is_odk"):
+                        ctx.viol(f"file-route:reject-not-raised:{kind}", f"the validator rejected (exit 1) but print_xform_to_file gave {rec}", wit)
+                    elif "${q1}" not in rec["exc_msg"]:
+                        ctx.viol(f"file-route:reject-message:{kind}", f"diagnostic not carried: {rec['exc_msg'][:200]!r}", wit)
+                else:
+                    if not rec["ok"]:
+                        ctx.viol(f"file-route:accepted-form-refused:{kind}", f"the validator accepted (exit 0) but print_xform_to_file raised {rec.get('exc_type')}: {rec.get('exc_msg', '')[:200]}", wit)
+                    else:
+                        ctx.ctr("outputs_compared")
+                        got = open(full, encoding="utf-8").read() if os.path.exists(full) else None
+                        if got != ref.xform:
+                            ctx.viol(f"file-route:output:{kind}", f"the file at the path {'is missing' if got is None else 'differs from the document'}", wit)
+                        if outcome == "accept_warn" and not any("q2" in x for x in rec.get("warnings", [])):
+                            ctx.viol(f"file-route:warning-lost:{kind}", f"the validator's stderr is not among the warnings: {rec.get('warnings')}", wit)
+                left = sorted(set(listing(dirs["tmp"])) - set(tmp_before))
+                ctx.ctr("residue_listings")
+                if left:
+                    ctx.viol(f"file-route:residue:tmp:{outcome}", f"[{kind}] left in the temp directory: {left[:4]}", wit)
+            finally:
+                shutil.rmtree(d, ignore_errors=True)
+
+
 def run_shard(ctx):
+    file_route_scripts(ctx)
     S = enumerate_scripts(ctx.tier, ctx.seed)
     FORMS = forms()
     base = tempfile.mkdtemp(prefix="c18base_")
@@ -797,7 +903,11 @@ def replay(w):
     print(f"replaying C18 script {sc}")
     base = tempfile.mkdtemp(prefix="c18replay_")
     try:
-        run_script(ctx, sc, base, forms(), w.get("seed", 0))
+        if (w.get("witness") or {}).get("klass") == "file-route":
+            ctx.mine = lambda k: True
+            file_route_scripts(ctx)  # nine scripts: run the family whole
+        else:
+            run_script(ctx, sc, base, forms(), w.get("seed", 0))
     finally:
         shutil.rmtree(base, ignore_errors=True)
     if ctx.viols:
